@@ -45,7 +45,7 @@ theorem numStep_eval (hn : Bool) (d : Int) (isNum : Prop) [Decidable isNum] (num
         simp [List.set_eq_of_length_le this, h]
 
 theorem afterNoMatch_eval (p qt : Bytes) (hq : qt = [] ∨ qt = [63]) (rec : MState → Bool × MState)
-    (k : Kw) (ks : List Kw) (hks : ∀ k ∈ ks, KwOK k)
+    (k : Kw) (ks : List Kw) (hks : ∀ k ∈ ks, KwW k)
     (pp : Nat) (pl : Int) (cp cl : Nat) (nums : List Int) (idx : Nat) (oob : Bool)
     (h : p.drop pp = closeB k ++ renderRest ks ++ qt)
     (hpl : pl = ((closeB k ++ renderRest ks).length : Int)) :
@@ -71,7 +71,7 @@ theorem afterNoMatch_eval (p qt : Bytes) (hq : qt = [] ∨ qt = [63]) (rec : MSt
 
 theorem afterMatch_colon (p qt c : Bytes) (hq : qt = [] ∨ qt = [63]) (hn : Bool) (d : Int)
     (rec : MState → Bool × MState)
-    (k : Kw) (ks : List Kw) (hks : ∀ k ∈ ks, KwOK k)
+    (k : Kw) (ks : List Kw) (hks : ∀ k ∈ ks, KwW k)
     (pp : Nat) (pl : Int) (cp cl : Nat) (nums : List Int) (idx : Nat) (oob : Bool)
     (h : p.drop pp = closeB k ++ renderRest ks ++ qt)
     (hpl : pl = ((closeB k ++ renderRest ks).length : Int))
@@ -140,8 +140,8 @@ def Good (hn : Bool) (d : Int) (r : Bool × MState) (kws : List Kw) (ms : List B
   ∀ sol, greedy kws ms = some sol → r.2.numbers = if hn then fill nums idx (want sol d) else nums
 
 /-- all suffixes of the reading fit an int32 -/
-def Small (kws : List Kw) (ms : List Bytes) : Prop :=
-  ∀ sol, greedy kws ms = some sol → ∀ o ∈ sol, ∀ v, o = some v → v < 2^31
+def Small (hn : Bool) (kws : List Kw) (ms : List Bytes) : Prop :=
+  hn = true → ∀ sol, greedy kws ms = some sol → ∀ o ∈ sol, ∀ v, o = some v → v < 2^31
 
 /-- the recursive call is good on every state at a keyword start -/
 def RecOK (p qt c ct : Bytes) (hn : Bool) (d : Int) (rec : MState → Bool × MState) (ks : List Kw)
@@ -149,7 +149,7 @@ def RecOK (p qt c ct : Bytes) (hn : Bool) (d : Int) (rec : MState → Bool × MS
   ∀ k' ks' m' ms' pp' pl' cp' cl' nums' idx', ks = k' :: ks' → (∀ x ∈ m' :: ms', MnOK x) →
     p.drop pp' = kwText k' ks' ++ qt → pl' = ((kwText k' ks').length : Int) →
     c.drop cp' = m' ++ hdrRest ms' ++ ct → cl' = (m' ++ hdrRest ms').length →
-    Small (k' :: ks') (m' :: ms') →
+    Small hn (k' :: ks') (m' :: ms') →
     Good hn d (rec ⟨pp', pl', cp', cl', brOf k', nums', idx', oob⟩) (k' :: ks') (m' :: ms') nums' idx' oob
 
 theorem sep_next (p qt : Bytes) (k k' : Kw) (ks' : List Kw) (pp : Nat) (pl : Int)
@@ -163,13 +163,13 @@ theorem sep_next (p qt : Bytes) (k k' : Kw) (ks' : List Kw) (pp : Nat) (pl : Int
 
 /-- the keyword did not match -/
 theorem step_nomatch (p qt c ct : Bytes) (hq : qt = [] ∨ qt = [63]) (hn : Bool) (d : Int)
-    (rec : MState → Bool × MState) (k : Kw) (ks : List Kw) (hks : ∀ k ∈ ks, KwOK k)
+    (rec : MState → Bool × MState) (k : Kw) (ks : List Kw) (hks : ∀ k ∈ ks, KwW k)
     (m : Bytes) (ms : List Bytes) (hm : ∀ x ∈ m :: ms, MnOK x)
     (pp : Nat) (pl : Int) (cp cl : Nat) (nums : List Int) (idx : Nat) (oob : Bool)
     (h : p.drop pp = closeB k ++ renderRest ks ++ qt)
     (hpl : pl = ((closeB k ++ renderRest ks).length : Int))
     (hc : c.drop cp = m ++ hdrRest ms ++ ct) (hcl : cl = (m ++ hdrRest ms).length)
-    (hkm : kwMatch k m = none) (hsmall : Small (k :: ks) (m :: ms))
+    (hkm : kwMatch k m = none) (hsmall : Small hn (k :: ks) (m :: ms))
     (hrec : RecOK p qt c ct hn d rec ks oob) :
     Good hn d (afterNoMatch p rec ⟨pp, pl, cp, cl, brOf k,
         if k.numeric then (if hn then nums.set idx d else nums) else nums,
@@ -187,9 +187,9 @@ theorem step_nomatch (p qt c ct : Bytes) (hq : qt = [] ∨ qt = [63]) (hn : Bool
       obtain ⟨h1, h2⟩ := sep_next p qt k k' ks' pp pl h hpl
       have hg : greedy (k :: k' :: ks') (m :: ms) = (greedy (k' :: ks') (m :: ms)).map (consNum k none) := by
         simp [greedy, hkm, hopt]
-      have hsm' : Small (k' :: ks') (m :: ms) := by
-        intro sol' hs' o ho v hv
-        apply hsmall (consNum k none sol') (by rw [hg, hs']; rfl) o _ v hv
+      have hsm' : Small hn (k' :: ks') (m :: ms) := by
+        intro hhn sol' hs' o ho v hv
+        apply hsmall hhn (consNum k none sol') (by rw [hg, hs']; rfl) o _ v hv
         unfold consNum; split <;> simp [ho]
       have := hrec k' ks' m ms (pp + sepLen k k') (pl - sepLen k k') cp cl
         (if k.numeric then (if hn then nums.set idx d else nums) else nums)
@@ -223,16 +223,16 @@ theorem renderRest_eq_nil (ks : List Kw) (h : renderRest ks = []) : ks = [] := b
 
 /-- the keyword matched a whole mnemonic -/
 theorem step_match (p qt c ct : Bytes) (hq : qt = [] ∨ qt = [63]) (hn : Bool) (d : Int)
-    (rec : MState → Bool × MState) (k : Kw) (ks : List Kw) (hks : ∀ k ∈ ks, KwOK k)
+    (rec : MState → Bool × MState) (k : Kw) (ks : List Kw) (hks : ∀ k ∈ ks, KwW k)
     (m : Bytes) (ms : List Bytes) (hm : ∀ x ∈ m :: ms, MnOK x)
     (pp : Nat) (pl : Int) (cp cl : Nat) (nums numsX : List Int) (idx : Nat) (oob : Bool)
     (h : p.drop pp = closeB k ++ renderRest ks ++ qt)
     (hpl : pl = ((closeB k ++ renderRest ks).length : Int))
     (hc : c.drop cp = hdrRest ms ++ ct) (hcl : cl = (hdrRest ms).length)
     (n' : Option Nat) (hkm : kwMatch k m = some n')
-    (hX : (∀ v, n' = some v → v < 2^31) →
+    (hX : (hn = true → ∀ v, n' = some v → v < 2^31) →
       numsX = if hn then (if k.numeric then nums.set idx (wantOne n' d) else nums) else nums)
-    (hsmall : Small (k :: ks) (m :: ms))
+    (hsmall : Small hn (k :: ks) (m :: ms))
     (hrec : RecOK p qt c ct hn d rec ks oob) :
     Good hn d (afterMatch p c hn d rec ⟨pp, pl, cp, cl, brOf k, numsX,
         if k.numeric then idx + 1 else idx, oob⟩) (k :: ks) (m :: ms) nums idx oob := by
@@ -243,17 +243,17 @@ theorem step_match (p qt c ct : Bytes) (hq : qt = [] ∨ qt = [63]) (hn : Bool) 
       r.numbers = (if hn then fill numsX (if k.numeric then idx + 1 else idx) (want sol' d) else numsX) →
       r.numbers = if hn then fill nums idx (want (consNum k n' sol') d) else nums := by
     intro r sol' hs' hr
-    have hsm : ∀ v, n' = some v → v < 2^31 := by
-      intro v hv
+    have hsm : hn = true → ∀ v, n' = some v → v < 2^31 := by
+      intro hhn v hv
       cases hknum : k.numeric with
       | false => subst hv; exact absurd hkm (kwMatch_nonnumeric k m v hknum)
       | true =>
-        apply hsmall (consNum k n' sol') (by rw [hg, hs']; rfl) n' _ v hv
+        apply hsmall hhn (consNum k n' sol') (by rw [hg, hs']; rfl) n' _ v hv
         simp [consNum, hknum]
     rw [hr, hX hsm, fill_step]
-  have hsm' : Small ks ms := by
-    intro sol' hs' o ho v hv
-    apply hsmall (consNum k n' sol') (by rw [hg, hs']; rfl) o _ v hv
+  have hsm' : Small hn ks ms := by
+    intro hhn sol' hs' o ho v hv
+    apply hsmall hhn (consNum k n' sol') (by rw [hg, hs']; rfl) o _ v hv
     unfold consNum; split <;> simp [ho]
   match ms, hm, hc, hcl, hg, hnum, hsm' with
   | [], _, hc, hcl, hg, hnum, _ =>
@@ -369,6 +369,26 @@ theorem hdr_split (c ct : Bytes) (hct : ct = [] ∨ ct = [63]) (m : Bytes) (ms :
       · have hpos : 0 < m2.length := List.length_pos_iff.mpr h2
         rw [hcl, List.length_append, hlenm]; omega
 
+/-- a mnemonic containing '?' spells no keyword -/
+theorem kwMatch_no63 (k : Kw) (hk : KwW k) (m : Bytes) (h63 : (63 : UInt8) ∈ m) : kwMatch k m = none := by
+  cases hx : kwMatch k m with
+  | none => rfl
+  | some r =>
+    exfalso
+    have hform : ∀ form : Bytes, (∀ c ∈ form, c ∈ k.long) → Spells k.numeric form m → False := by
+      intro form hsub ⟨dd, h1, h2, _⟩
+      have hm : lower 63 ∈ m.map lower := List.mem_map_of_mem h63
+      rw [h1] at hm
+      rcases List.mem_append.mp hm with hm | hm
+      · obtain ⟨c, hc, hlc⟩ := List.mem_map.mp hm
+        have := (hk.long_all c (hsub c hc)).2.2.2.1
+        exact this hlc
+      · have := List.all_eq_true.mp h2 _ hm
+        exact absurd this (by decide)
+    rcases spells_of_kwMatch k m r hx with h | h
+    · exact hform k.long (fun c hc => hc) h
+    · exact hform k.short hk.short_mem h
+
 theorem after_head (k : Kw) (ks : List Kw) (qt : Bytes) :
     closeB k ++ renderRest ks = [] ∨
     (0 < (closeB k ++ renderRest ks).length ∧
@@ -391,12 +411,12 @@ theorem st1_eval (hn : Bool) (flag : Prop) [Decidable flag] (idx : Nat) (v : Opt
 
 /-- one iteration of the main loop at the start of keyword `k` with current mnemonic `m` -/
 theorem main_step (p qt c ct : Bytes) (hq : qt = [] ∨ qt = [63]) (hct : ct = [] ∨ ct = [63])
-    (hn : Bool) (d : Int) (fuel : Nat) (k : Kw) (ks : List Kw) (hk : KwOK k) (hks : ∀ k ∈ ks, KwOK k)
+    (hn : Bool) (d : Int) (fuel : Nat) (k : Kw) (ks : List Kw) (hk : KwW k) (hks : ∀ k ∈ ks, KwW k)
     (m : Bytes) (ms : List Bytes) (hm : ∀ x ∈ m :: ms, MnOK x)
     (pp : Nat) (pl : Int) (cp cl : Nat) (nums : List Int) (idx : Nat) (oob : Bool)
     (hp : p.drop pp = kwText k ks ++ qt) (hpl : pl = ((kwText k ks).length : Int))
     (hc : c.drop cp = m ++ hdrRest ms ++ ct) (hcl : cl = (m ++ hdrRest ms).length)
-    (hsmall : Small (k :: ks) (m :: ms))
+    (hsmall : Small hn (k :: ks) (m :: ms))
     (hrec : RecOK p qt c ct hn d (mainLoop p c hn d fuel) ks oob) :
     Good hn d (mainLoop p c hn d (fuel + 1) ⟨pp, pl, cp, cl, brOf k, nums, idx, oob⟩)
       (k :: ks) (m :: ms) nums idx oob := by
@@ -425,7 +445,7 @@ theorem main_step (p qt c ct : Bytes) (hq : qt = [] ∨ qt = [63]) (hct : ct = [
   have hnn : ¬ pl < 0 := by rw [hpl]; omega
   have hmp := matchPattern_spec p pp k _ c cp m1 crest
     (decide (k.numeric = true ∧ hn = true ∧ idx < nums.length)) hk hp' hc1 hm1 hcr
-  have hallk : ∀ k' ∈ k :: ks, KwOK k' := by
+  have hallk : ∀ k' ∈ k :: ks, KwW k' := by
     intro k' hk'; rcases List.mem_cons.mp hk' with rfl | h
     · exact hk
     · exact hks k' h
@@ -449,14 +469,7 @@ theorem main_step (p qt c ct : Bytes) (hq : qt = [] ∨ qt = [63]) (hct : ct = [
     have hkm : kwMatch k m = none := by
       rcases hcase with ⟨h1, _⟩ | ⟨h63, _, _⟩
       · rw [← h1]; exact hR
-      · cases hx : kwMatch k m with
-        | none => rfl
-        | some r =>
-          have := kwMatch_chars k m r hk.chars
-            (by rw [List.all_eq_true]; intro b hb
-                exact List.all_eq_true.mp hk.chars b (hk.short_mem b hb)) hx
-          have := List.all_eq_true.mp this 63 h63
-          exact absurd this (by decide)
+      · exact kwMatch_no63 k hk m h63
     exact step_nomatch p qt c ct hq hn d _ k ks hks m ms hm (pp + (keyText k).length)
       (pl - ((keyText k).length : Int)) cp cl nums idx oob hafter hplafter hc hcl hkm hsmall hrec
   | some n' =>
@@ -475,7 +488,7 @@ theorem main_step (p qt c ct : Bytes) (hq : qt = [] ∨ qt = [63]) (hct : ct = [
         (pl - ((keyText k).length : Int)) (cp + m1.length) (cl - m1.length) nums _ idx oob hafter hplafter
         hc' hcl' n' hR ?_ hsmall hrec
       intro hsm
-      have hfull := hmp.2 (fun v hv => hsm v (by simpa using hv))
+      have hfull := hmp.2 (fun hfl v hv => hsm (by simpa using (of_decide_eq_true hfl).2.1) v (by simpa using hv))
       rw [hfull]
       by_cases hf : (k.numeric = true ∧ hn = true ∧ idx < nums.length)
       · obtain ⟨f1, f2, f3⟩ := hf
@@ -489,27 +502,19 @@ theorem main_step (p qt c ct : Bytes) (hq : qt = [] ∨ qt = [63]) (hct : ct = [
       rw [afterMatch_q p c hn d _ _ _ _ _ _ _ _ _ hq63 hclpos]
       have hbad : ∀ k' ∈ k :: ks, kwMatch k' m = none := by
         intro k' hk'
-        have hok := hallk k' hk'
-        cases hx : kwMatch k' m with
-        | none => rfl
-        | some r =>
-          have := kwMatch_chars k' m r hok.chars
-            (by rw [List.all_eq_true]; intro b hb
-                exact List.all_eq_true.mp hok.chars b (hok.short_mem b hb)) hx
-          have := List.all_eq_true.mp this 63 h63
-          exact absurd this (by decide)
+        exact kwMatch_no63 k' (hallk k' hk') m h63
       have hg := greedy_none_of_unmatchable (k :: ks) (m :: ms) m (by simp) hbad
       simp [Good, hg]
 
 /-- the main loop computes the list-level walker -/
 theorem mainLoop_spec (p qt c ct : Bytes) (hq : qt = [] ∨ qt = [63]) (hct : ct = [] ∨ ct = [63])
     (hn : Bool) (d : Int) :
-    ∀ (ks : List Kw) (k : Kw) (fuel : Nat), ks.length < fuel → KwOK k → (∀ k ∈ ks, KwOK k) →
+    ∀ (ks : List Kw) (k : Kw) (fuel : Nat), ks.length < fuel → KwW k → (∀ k ∈ ks, KwW k) →
     ∀ (m : Bytes) (ms : List Bytes), (∀ x ∈ m :: ms, MnOK x) →
     ∀ (pp : Nat) (pl : Int) (cp cl : Nat) (nums : List Int) (idx : Nat) (oob : Bool),
       p.drop pp = kwText k ks ++ qt → pl = ((kwText k ks).length : Int) →
       c.drop cp = m ++ hdrRest ms ++ ct → cl = (m ++ hdrRest ms).length →
-      Small (k :: ks) (m :: ms) →
+      Small hn (k :: ks) (m :: ms) →
       Good hn d (mainLoop p c hn d fuel ⟨pp, pl, cp, cl, brOf k, nums, idx, oob⟩)
         (k :: ks) (m :: ms) nums idx oob := by
   intro ks
